@@ -120,7 +120,7 @@ fn replay_one(op: &str, args: &str, o: &Opts) -> String {
             Ok(x) => sbdd::run_case(&rsbdd::bdd::BDDEnv::new(), &x),
             Err(e) => format!("(harness-error {e})"),
         },
-        "tok" | "parse" | "eval" | "sym" | "evalx" | "evalid" => match sx::parse(args) {
+        "tok" | "parse" | "eval" | "sym" | "tte" | "evalx" | "evalid" => match sx::parse(args) {
             Ok(x) => stext::replay(op, &x),
             Err(e) => format!("(harness-error {e})"),
         },
